@@ -26,6 +26,8 @@ struct Cx<'a> {
     n: u64,
     distinct: u64,
     thorough: bool,
+    idx: usize,
+    variant: u32,
 }
 
 struct FOpts {
@@ -49,7 +51,11 @@ fn viol(cx: &Cx, prop: &str, class: &str, d: &Desc, opts: &str, ty: &str, input:
             return;
         }
     }
-    let sig = format!("{prop}|{class}|{}|{}", if ty.starts_with('f') { "float" } else { "int" }, cause(d, class));
+    // Known defects of niche format traits (see known_findings.json) are keyed on the trait alone, so that
+    // every seed of the format sample maps them to the same signature; everything else is keyed on the class.
+    let kind = if ty.starts_with('f') { "float" } else { "int" };
+    let c = cause(d, class);
+    let sig = if c == "-" { format!("{prop}|{class}|{kind}|-") } else { format!("{prop}|{c}|{kind}") };
     cx.rep.violation(
         &sig,
         obj(&[
@@ -57,6 +63,9 @@ fn viol(cx: &Cx, prop: &str, class: &str, d: &Desc, opts: &str, ty: &str, input:
             ("config", cx.cfg.clone()),
             ("profile", vharness::profile_name().into()),
             ("set", SET.to_string()),
+            ("bin_part", PART.to_string()),
+            ("idx", cx.idx.to_string()),
+            ("variant", cx.variant.to_string()),
             ("format", d.name()),
             ("options", opts.into()),
             ("type", ty.into()),
@@ -247,7 +256,7 @@ fn judge_float<T: LFloat, const FMT: u128, const NOSEP: u128>(cx: &mut Cx, d: &D
                 let b = v.bits64();
                 let special = k.is_nan(b) || (b & k.abs_mask()) == k.inf_bits();
                 // an infinity from a numeric-looking input is overflow, not a special
-                let numeric_looking = input.iter().any(|c| c.is_ascii_digit());
+                let numeric_looking = input.iter().any(|&c| digit_value(c) < d.radix as u32);
                 if special && !numeric_looking {
                     viol(cx, "C15", "special-accepted-ungrammatical", d, &fo.name, ty, input, format!("{why}: {}", fmt_rf(&rc)));
                 } else {
@@ -275,7 +284,10 @@ fn judge_float<T: LFloat, const FMT: u128, const NOSEP: u128>(cx: &mut Cx, d: &D
         // ---- C13 (1),(2) + C15 separators in specials
         if let R::Ok(v, _) = &rc {
             let b = v.bits64();
-            let special = k.is_nan(b) || ((b & k.abs_mask()) == k.inf_bits() && !input.iter().any(|c| c.is_ascii_digit()));
+            // does the input spell a special string once the separators are ignored?
+            let body0: &[u8] = if matches!(input.first(), Some(b'+') | Some(b'-')) { &input[1..] } else { input };
+            let spelled = refgram::special_after_sign(&Desc { flags: (d.flags | SSEP) & !NSP, ..*d }, &fo.p, body0).is_some();
+            let special = k.is_nan(b) || ((b & k.abs_mask()) == k.inf_bits() && spelled);
             if special {
                 if !d.has(SSEP) {
                     let body: &[u8] = if matches!(input.first(), Some(b'+') | Some(b'-')) { &input[1..] } else { input };
@@ -781,8 +793,10 @@ fn hostile(rng: &mut Rng, d: &Desc, p: &POpts, n: usize, long: bool, out: &mut V
 fn run_format<const FMT: u128, const NOSEP: u128>(cx: &mut Cx, d: &Desc, idx: usize, seed: u64, only: Option<(&str, &[u8], u32)>) {
     let mut rng = Rng::stream(seed, 9000 + idx as u64 * 7 + SET as u64);
     let io = lexical_core::ParseIntegerOptions::new();
+    cx.idx = idx;
     let nvariants = if SET == SET_INVALID { 1 } else { 3 };
     if let Some((ty, input, variant)) = only {
+        cx.variant = variant;
         let fo = mk_opts(d, variant, &mut Rng::stream(seed, 9500 + idx as u64 * 3 + variant as u64));
         match ty {
             "f64" => {
@@ -803,6 +817,7 @@ fn run_format<const FMT: u128, const NOSEP: u128>(cx: &mut Cx, d: &Desc, idx: us
     let extra_types = idx % 4 == 0;
     let ntok = if cx.thorough { 120_000 } else { 12_000 };
     for variant in 0..nvariants {
+        cx.variant = variant;
         let fo = mk_opts(d, variant, &mut Rng::stream(seed, 9500 + idx as u64 * 3 + variant as u64));
         let mut inputs: Vec<Vec<u8>> = Vec::new();
         let alpha = alphabet(d, &fo.p);
@@ -851,7 +866,7 @@ fn run_format<const FMT: u128, const NOSEP: u128>(cx: &mut Cx, d: &Desc, idx: us
                 if d.sep != 0 && d.any_sep_flags() && !has_sep(d, inp) && !v.is_nan() && inp.iter().any(|c| c.is_ascii_alphanumeric()) && accepted_sepfree.len() < 4000 {
                     // skip literals with prefix/suffix letters (their interplay with separators is not documented)
                     let plain = !inp.iter().any(|&c| (d.prefix != 0 && c.to_ascii_lowercase() == d.prefix.to_ascii_lowercase()) || (d.suffix != 0 && c.to_ascii_lowercase() == d.suffix.to_ascii_lowercase()));
-                    let finite_literal = !(v.is_infinite() && !inp.iter().any(|c| c.is_ascii_digit()));
+                    let finite_literal = !(v.is_infinite() && !inp.iter().any(|&c| digit_value(c) < d.radix as u32));
                     if plain && finite_literal && (inp.len() > 3 || rng.chance(1, 8)) {
                         accepted_sepfree.push((inp.clone(), v.to_bits()));
                     }
@@ -974,7 +989,7 @@ fn main() {
     let nfmt = args.get_u64("nfmt", 64) as usize;
     let total = std::sync::Mutex::new(0u64);
     report::parallel(if replay_in.is_some() { 1 } else { args.threads }, |shard, nshards| {
-        let mut cx = Cx { rep: &rep, cfg: cfg.clone(), prop: prop.clone(), counts: BTreeMap::new(), arena: Arena::new(1 << 16), n: shard as u64, distinct: 0, thorough };
+        let mut cx = Cx { rep: &rep, cfg: cfg.clone(), prop: prop.clone(), counts: BTreeMap::new(), arena: Arena::new(1 << 16), n: shard as u64, distinct: 0, thorough, idx: 0, variant: 0 };
         macro_rules! go {
             ($($i:literal)*) => {$(
                 {
